@@ -12,20 +12,21 @@ OUTSIDE = ('histories longer than the stated number of operations; vector sizes 
            'the alignas(32)/alignas(64) payloads; exceptions thrown by element constructors')
 
 
-def hist(n, mx):
+def hist(n, mq, mx):
     kinds = ('25 kinds: push_back const&/&&/emplace_back, pop_back, erase at any position, resize(c)/resize(c,value) with c in '
              '{0,N,N+1,MAX}, reserve(c) with c in {1,N+1,MAX+1}, clear, copy/move assignment in both directions, self '
              'assignment, destroy + default/count/count+value/initializer-list/copy/move construction, writes through '
              'operator[]/front/back/iterators, push on B')
     bq = ('two SmallVector<Elem,%d> objects A and B, initially empty; every history of one state-building operation (push, '
-          'resize to N/N+1/MAX, reserve(N+1), B = A, initializer-list construction, push on B) followed by one operation of '
+          'resize to N+1, B = A, initializer-list construction) followed by one operation of '
           'any kind (%s), explored as a tree; element values and positions symbolic; sizes <= %d' % (n, kinds, mx))
     bt = ('two SmallVector<Elem,%d> objects A and B, initially empty; every history of two operations of any kind (%s), '
           'explored as a tree; element values and positions symbolic; sizes <= %d' % (n, kinds, mx))
     return {'name': 'history_n%d' % n, 'src': 'history.cpp', 'engine': 'cbmc',
-            'defs': {'VF_N': n, 'VF_OPS': 2, 'VF_MAX': mx, 'VF_FULL': 0}, 'unwind': mx + 2, 'timeout': 280,
+            'defs': {'VF_N': n, 'VF_OPS': 2, 'VF_MAX': mq, 'VF_FULL': 0}, 'unwind': mq + 2, 'timeout': 280,
             'rt_defs': {'VF_MALLOC_U32': 1, 'VF_MALLOC_CAP': 8}, 'leak_check': True, 'bounds': bq,
-            'thorough': {'defs': {'VF_N': n, 'VF_OPS': 2, 'VF_MAX': mx, 'VF_FULL': 1}, 'timeout': 1700, 'bounds': bt}}
+            'thorough': {'defs': {'VF_N': n, 'VF_OPS': 2, 'VF_MAX': mx, 'VF_FULL': 2}, 'unwind': mx + 2, 'timeout': 1700,
+                         'bounds': bt}}
 
 
 def align(a, n):
@@ -40,9 +41,9 @@ def align(a, n):
 
 
 INSTANCES = [
-    hist(1, 4),
-    hist(2, 5),
-    hist(4, 6),
+    hist(1, 3, 4),
+    hist(2, 4, 5),
+    hist(4, 5, 6),
     align(32, 2),
     align(64, 1),
 ]
